@@ -18,6 +18,7 @@ one (`VerifFindFirstChar`) at every position of generated inputs.
 import RegexVerif.Lemmas.Scan
 import RegexVerif.Lemmas.Finders
 import RegexVerif.Lemmas.BoyerMooreScan
+import RegexVerif.Lemmas.StringFilter
 import RegexVerif.Props.C04
 
 namespace RegexVerif.Props.C03
@@ -813,5 +814,187 @@ example : finderLiteralAfterLoop id { str := [97, 98], loopSet := some (fun c =>
     [120, 121, 97, 98, 99] 3 0 = (true, 0) := by decide
 
 end LoopFactsChain
+
+/-! ## ─── the raw-string (byte-level) prefix filters (`stringprefixfilter.go`, slice "strfilter") ───
+
+A filter runs on the UNDECODED string; the facts it relies on are about RUNES of the decoded string.  Below,
+`input : List Nat` is the string as bytes, `Utf8.decodeB input` what `for range` yields (one rune per invalid
+byte), `Utf8.runesOf input` the runes, `Utf8.byteOff input p` the byte offset of rune `p`, `attempt` the
+single-position attempts of the program on `runesOf input`.  `StrFilterSound input attempt f`: for every `startAt`
+on a rune boundary, `ok = false` only if no attempt succeeds at a rune whose byte offset is `≥ startAt`; a
+candidate is a rune boundary `≥ startAt` and no attempt succeeds at a rune with byte offset in `[startAt, candidate)`. -/
+section StringFilters
+open RegexVerif.Utf8 RegexVerif.StringFilter RegexVerif.Lemmas.StringFilter
+open RegexVerif.Finders hiding Step fixedStep
+
+/-- "é\xffab": runes `é`, U+FFFD (the invalid byte), `a`, `b`; byte offsets 0, 2, 3, 4, 5 -/
+def sfInput : List Nat := [0xC3, 0xA9, 0xFF, 97, 98]
+/-- one successful attempt, at rune `q` -/
+def sfAttempt (q len : Nat) : Nat → Option (Nat × Nat) := fun p => if p = q then some (q, len) else none
+
+theorem sfAttempt_at {q len p : Nat} (h : sfAttempt q len p ≠ none) : p = q := by
+  unfold sfAttempt at h; by_cases hp : p = q
+  · exact hp
+  · simp [hp] at h
+
+theorem sfMinLen (q len L : Nat) (h : q + L ≤ 4) : MinLenSound false (decodeB sfInput).length L (sfAttempt q len) := by
+  intro p i l _ hp
+  have := sfAttempt_at (p := p) (by rw [hp]; simp)
+  subst this
+  have : (decodeB sfInput).length = 4 := by decide
+  simp [this]; omega
+
+example : runesOf sfInput = [233, 0xFFFD, 97, 98] ∧ (List.range 5).map (byteOff sfInput) = [0, 2, 3, 4, 5] := by decide
+
+/-- **`helpers.IndexStringIgnoreCaseASCII`** (the byte search of the ignore-case filters, mirrored with its skip
+    loop over `indexASCIIByteIgnoreCase`): the result is the FIRST byte offset at which the prefix occurs under
+    ASCII case folding, and `-1` (`none`) only when it occurs nowhere — for every string and every prefix (the
+    same shape as `bm_scan_sound/complete/none`). -/
+theorem indexStringIgnoreCaseASCII_first (s pre : List Nat) :
+    (∀ i, indexStringIgnoreCaseASCII s pre = some i →
+      prefixOf eqAsciiFold pre (s.drop i) = true ∧ ∀ j, j < i → prefixOf eqAsciiFold pre (s.drop j) ≠ true) ∧
+    (indexStringIgnoreCaseASCII s pre = none → ∀ j, prefixOf eqAsciiFold pre (s.drop j) ≠ true) :=
+  indexStringIgnoreCaseASCII_spec s pre
+
+example : indexStringIgnoreCaseASCII [120, 65, 97, 66, 97, 98] [97, 98] = some 2 ∧
+    indexStringIgnoreCaseASCII [120, 65, 97] [97, 98] = none ∧ indexStringIgnoreCaseASCII [120] [] = some 0 := by decide
+
+/-- **`utf8.DecodeLastRuneInString` agrees with the forward decoding, so `stringFixedDistanceCandidateStart` counts
+    RUNES.**  From the boundary of rune `ki` it reaches, after `d` backward steps, the boundary of rune `ki - d` —
+    one step per invalid byte, one per well-formed multi-byte sequence — and fails exactly when that would lie
+    before the rune `ks` of `startAt`.  (The distance is in runes, the walk in bytes: the seeded changes
+    C03b / C10b lived between the two.) -/
+theorem stringFilter_candidateStart_counts_runes (s : List Nat) (ks d ki : Nat)
+    (hki : ki ≤ (decodeB s).length) (hks : ks ≤ ki) :
+    candidateStart s (byteOff s ks) d (byteOff s ki) = if ks + d ≤ ki then some (byteOff s (ki - d)) else none :=
+  candidateStart_spec s ks d ki hki hks
+
+example : candidateStart sfInput 0 2 (byteOff sfInput 3) = some 2 ∧ candidateStart sfInput 2 2 (byteOff sfInput 2) = none := by decide
+
+/-- **`stringIndexPrefixFilter`** (modes `LeadingString_LeftToRight`, `LeadingString_OrdinalIgnoreCase_LeftToRight`):
+    if every match starts with the runes of the prefix (exactly, or under ASCII folding for an ASCII prefix), the
+    prefix holds no U+FFFD, and `MinRequiredLength` (runes) is sound, the first BYTE occurrence at or after
+    `startAt` is a sound candidate. -/
+theorem stringFilter_prefix_sound (pre : List Nat) (ic : Bool) (minLen : Nat) (input : List Nat)
+    (attempt : Nat → Option (Nat × Nat)) (hne : pre ≠ []) (hok : PrefixOK ic pre)
+    (hP : ∀ p, p ≤ (decodeB input).length → attempt p ≠ none → runeOcc ic input pre p)
+    (hM : MinLenSound false (decodeB input).length minLen attempt) :
+    StrFilterSound input attempt (prefixFilterBody pre ic minLen) :=
+  prefixFilter_sound pre ic minLen input attempt hne hok hP hM
+
+example : PrefixOK false [97, 98] ∧ PrefixOK true [97, 98] := ⟨clean_ascii _ (by decide), by simp [PrefixOK, isASCIIString]⟩
+example : ∀ p, p ≤ (decodeB sfInput).length → sfAttempt 2 2 p ≠ none → runeOcc false sfInput [97, 98] p := by
+  intro p _ h; rw [sfAttempt_at h]; unfold runeOcc; decide
+example : prefixFilterBody [97, 98] false 2 sfInput 0 = (3, true) ∧ prefixFilterBody [65, 66] true 2 sfInput 2 = (3, true) ∧
+    prefixFilterBody [97, 98] false 2 sfInput 4 = (0, false) := by decide
+
+/-- **`indexAnyPrefixFallback`** (`LeadingStrings_[OrdinalIgnoreCase_]LeftToRight` without a shared first byte):
+    if every match starts with the runes of ONE of the prefixes, the smallest first byte occurrence over all
+    prefixes is a sound candidate. -/
+theorem stringFilter_prefixesFallback_sound (prefixes : List (List Nat)) (ic : Bool) (minLen : Nat) (input : List Nat)
+    (attempt : Nat → Option (Nat × Nat)) (hok : ∀ pre ∈ prefixes, PrefixOK ic pre)
+    (hP : ∀ p, p ≤ (decodeB input).length → attempt p ≠ none → ∃ pre ∈ prefixes, runeOcc ic input pre p)
+    (hM : MinLenSound false (decodeB input).length minLen attempt) :
+    StrFilterSound input attempt (indexAnyPrefixFallback prefixes ic minLen) :=
+  prefixesFallback_sound prefixes ic minLen input attempt hok hP hM
+
+example : ∀ p, p ≤ (decodeB sfInput).length → sfAttempt 2 2 p ≠ none → ∃ pre ∈ [[120, 121], [97, 98]], runeOcc false sfInput pre p := by
+  intro p _ h; rw [sfAttempt_at h]; exact ⟨[97, 98], by simp, by unfold runeOcc; decide⟩
+example : indexAnyPrefixFallback [[120, 121], [97, 98]] false 2 sfInput 0 = (3, true) := by decide
+
+/-- **`asciiStringSetPrefixFilter.index`** (case-sensitive ASCII prefixes with a shared first byte): the scan over
+    first bytes with bucket verification is sound under the same fact. -/
+theorem stringFilter_prefixesSet_sound (prefixes : List (List Nat)) (minLen : Nat) (f : AsciiSetFilter) (input : List Nat)
+    (attempt : Nat → Option (Nat × Nat))
+    (hc : compileASCIIStringSetPrefixFilter prefixes false minLen = some f)
+    (hP : ∀ p, p ≤ (decodeB input).length → attempt p ≠ none → ∃ pre ∈ prefixes, runeOcc false input pre p)
+    (hM : MinLenSound false (decodeB input).length minLen attempt) :
+    StrFilterSound input attempt f.index := by
+  obtain ⟨c1, c2, c3, c4⟩ := compile_spec prefixes minLen f hc
+  exact asciiSetFilter_sound f input attempt (by rw [c1]; exact c3) (by rw [c1]; exact c4) (by rw [c1]; exact hP) (by rw [c2]; exact hM)
+
+example : ((compileASCIIStringSetPrefixFilter [[97, 98], [97, 99]] false 2).map fun f => f.index sfInput 0) = some (3, true) := by decide
+
+/-- **`stringFixedDistanceSetFilter`** (`LeadingSet_LeftToRight` with an ASCII `Chars` list or `Range`): `Q` is the
+    scanner's byte test. -/
+theorem stringFilter_set_sound (sc : Scanner) (Q : Nat → Bool) (minLen : Nat) (input : List Nat)
+    (attempt : Nat → Option (Nat × Nat)) (hQ : ∀ c, Q c = true → c < 128) (hidx : ∀ u, sc.index u = indexByteP Q u)
+    (hC : ∀ p, p ≤ (decodeB input).length → attempt p ≠ none → memAt Q (runesOf input) (p + sc.distance) = true)
+    (hM : MinLenSound false (decodeB input).length minLen attempt) :
+    StrFilterSound input attempt (setFilterBody sc minLen) :=
+  setFilter_sound sc Q minLen input attempt hQ hidx hC hM
+
+example : setFilterBody ⟨[97, 98], 0, 0, false, 0⟩ 1 sfInput 0 = (3, true) := by decide
+
+/-- **`stringFixedDistanceCharFilter`** (`FixedDistanceChar_LeftToRight`): if every match has the rune `ch` exactly
+    `d` RUNES after its start, the filter is sound — for every `ch`, including U+FFFD (which `strings.IndexRune`
+    finds at every invalid byte), surrogates and runes above U+10FFFF (never found, never in a decoded string). -/
+theorem stringFilter_fixedChar_sound (ch d minLen : Nat) (input : List Nat) (attempt : Nat → Option (Nat × Nat))
+    (hC : ∀ p, p ≤ (decodeB input).length → attempt p ≠ none → (runesOf input)[p + d]? = some ch)
+    (hM : MinLenSound false (decodeB input).length minLen attempt) :
+    StrFilterSound input attempt (fixedCharFilterBody ch d minLen) :=
+  fixedCharFilter_sound ch d minLen input attempt hC hM
+
+example : ∀ p, p ≤ (decodeB sfInput).length → sfAttempt 0 2 p ≠ none → (runesOf sfInput)[p + 1]? = some 0xFFFD := by
+  intro p _ h; rw [sfAttempt_at h]; decide
+example : fixedCharFilterBody 0xFFFD 1 2 sfInput 0 = (0, true) ∧ fixedCharFilterBody 97 2 3 sfInput 0 = (0, true) ∧
+    fixedCharFilterBody 97 2 3 sfInput 2 = (0, false) := by decide
+
+/-- **`stringFixedDistanceStringFilter`** (`FixedDistanceString_LeftToRight`). -/
+theorem stringFilter_fixedString_sound (lit : List Nat) (d minLen : Nat) (input : List Nat) (attempt : Nat → Option (Nat × Nat))
+    (hne : lit ≠ []) (hc : Clean lit)
+    (hC : ∀ p, p ≤ (decodeB input).length → attempt p ≠ none → occursAt eqExact (runesOf lit) (runesOf input) (p + d) = true)
+    (hM : MinLenSound false (decodeB input).length minLen attempt) :
+    StrFilterSound input attempt (fixedStringFilterBody lit d minLen) :=
+  fixedStringFilter_sound lit d minLen input attempt hne hc hC hM
+
+example : ∀ p, p ≤ (decodeB sfInput).length → sfAttempt 1 3 p ≠ none → occursAt eqExact (runesOf [97, 98]) (runesOf sfInput) (p + 1) = true := by
+  intro p _ h; rw [sfAttempt_at h]; decide
+example : fixedStringFilterBody [97, 98] 1 3 sfInput 0 = (2, true) ∧ fixedStringFilterBody [97, 98] 1 3 sfInput 3 = (0, false) := by decide
+
+/-- **`stringLiteralAfterLoopFilter`** (`LiteralAfterLoop_LeftToRight`): if every match contains the literal (string,
+    one of `Chars`, or `Char`) somewhere at or after its start, "the literal occurs in `input[startAt:]`" loses
+    no match; the candidate is `startAt` itself. -/
+theorem stringFilter_literalAfterLoop_sound (l : LitB) (minLen : Nat) (input : List Nat) (attempt : Nat → Option (Nat × Nat))
+    (hstr : l.str.isEmpty = false → PrefixOK l.strIgnoreCase l.str)
+    (hL : ∀ p, p ≤ (decodeB input).length → attempt p ≠ none → ∃ k, p ≤ k ∧ litAtB l (runesOf input) k)
+    (hM : MinLenSound false (decodeB input).length minLen attempt) :
+    StrFilterSound input attempt (literalAfterLoopFilterBody l minLen) :=
+  literalAfterLoopFilter_sound l minLen input attempt hstr hL hM
+
+example : ∀ p, p ≤ (decodeB sfInput).length → sfAttempt 2 2 p ≠ none → ∃ k, p ≤ k ∧ litAtB { char := 98, hasLoopSet := true } (runesOf sfInput) k := by
+  intro p _ h; rw [sfAttempt_at h]; exact ⟨3, by omega, by unfold litAtB; decide⟩
+example : literalAfterLoopFilterBody { char := 98, hasLoopSet := true } 2 sfInput 2 = (2, true) ∧
+    literalAfterLoopFilterBody { char := 0xFFFD, hasLoopSet := true } 1 sfInput 3 = (0, false) ∧
+    literalAfterLoopFilterBody { char := 0xFFFD, hasLoopSet := true } 1 sfInput 2 = (2, true) := by decide
+
+/-- **`newStringPrefixFilter`: whatever it installs is sound**, given the facts of the record's find mode
+    (`StrFactsSound`: the fact predicates of the candidate finders, on the decoded input, distances in runes). -/
+theorem stringFilter_dispatch_sound (code : CodeB) (o : StrOpts) (k : Kind) (f : Filter) (input : List Nat)
+    (attempt : Nat → Option (Nat × Nat))
+    (ho : code.opts = some o) (hinst : newStringPrefixFilter code = some (k, f))
+    (hF : StrFactsSound o input attempt) : StrFilterSound input attempt f :=
+  dispatch_sound code o k f input attempt ho hinst hF
+
+def sfCode : CodeB := { opts := some { mode := .leadingStringLtr, minLen := 2, leadingPrefix := [97, 98] } }
+example : ((newStringPrefixFilter sfCode).map fun kf => (kf.1, kf.2 sfInput 0)) = some (Kind.«prefix», (3, true)) := by decide
+example : StrFactsSound { mode := .leadingStringLtr, minLen := 2, leadingPrefix := [97, 98] } sfInput (sfAttempt 2 2) :=
+  ⟨sfMinLen 2 2 2 (by omega), by intro p _ h; rw [sfAttempt_at h]; unfold runeOcc; decide⟩
+
+/-- **… and it installs none where none is sound**: right-to-left programs, programs that use `\G` (the search is
+    restarted at the candidate, which would rebind `\G`: `Props.C02`, D2), and a U+FFFD in one of the literal strings
+    (every invalid input byte decodes to U+FFFD without containing its three bytes: D22). -/
+theorem stringFilter_dispatch_none (code : CodeB)
+    (h : code.rightToLeft = true ∨ code.usesStartAnchor = true ∨ ∃ o, code.opts = some o ∧ hasRuneError o = true) :
+    newStringPrefixFilter code = none :=
+  dispatch_none code h
+
+example : hasRuneError { mode := .leadingStringLtr, leadingPrefix := [97, 0xEF, 0xBF, 0xBD] } = true ∧
+    hasRuneError { mode := .fixedDistanceStringLtr, fixedString := [97, 0xFF] } = true := by decide
+-- the case the guard exists for: `a\x{FFFD}` on "xa\xffy" matches at rune 1, the byte search for "a\xef\xbf\xbd" finds nothing
+example : prefixFilterBody [97, 0xEF, 0xBF, 0xBD] false 2 [120, 97, 0xFF, 121] 0 = (0, false) ∧
+    occursAt eqExact (runesOf [97, 0xEF, 0xBF, 0xBD]) (runesOf [120, 97, 0xFF, 121]) 1 = true := by decide
+
+end StringFilters
 
 end RegexVerif.Props.C03
